@@ -1276,6 +1276,10 @@ class CSemantics:
         """
         if expr.typ.is_promotable:
             expr = self.coerce(expr, self.int_type)
+        elif isinstance(expr.typ, types.EnumType):
+            # An enumeration constant / enum value takes part in
+            # arithmetic as an int:
+            expr = self.coerce(expr, self.int_type)
         return expr
 
     def equal_types(self, typ1, typ2):
